@@ -84,7 +84,6 @@ proof('C18',
 
 for _p, _r in {
 
-    'C13': 'check not built yet',
     'C14': 'interleavings of concurrent processes: sequential contract-based VCs cannot quantify over schedules and no '
            'concurrency logic/verifier is available (DESIGN.md section 5, C14)',
     'C20': 'check not built yet',
@@ -168,3 +167,16 @@ bounded('C04',
         'end-to-end under C17; the contract-level obligations of DESIGN.md 5 C04 (state-only-in-store as a frame condition of Level-A '
         'archive contracts) were not built.',
         TECH_B.replace('deal contracts on sidecar wrappers of the real functions', 'run-time contract monitor on the real archive objects and fresh interpreter processes'))
+
+bounded('C13',
+        'Fault enumeration on the real code: for every operation of the scope the writer process is killed immediately before each file-system / '
+        'database primitive klepto reaches (os.remove/unlink/rename/renames/replace/mkdir/makedirs/rmdir, open-for-write, write (also after '
+        'half of the data), close, sqlite execute/commit) and a fresh process then opens and reads the archive; the recovered contents must be '
+        'readable, old-or-new for every touched key, unchanged for every other key, with no key that was never stored. Every crash index of '
+        'every operation of the scope is enumerated (exhaustive for that scope).',
+        'DESIGN.md 5 C13',
+        'crash granularity is the Python-level primitive plus half-written data; no power-failure/fsync model; sqlite journalling trusted; one '
+        'listed finding (dir_archive overwrite window). The contract-level proof over an assumed file-system-effect contract (DESIGN.md 5 C13) '
+        'was not built: this is the enumeration that would have validated it.',
+        'fault enumeration of the real code in killed child processes against an old-or-new recovery contract (bounded stand-in for the effect-sequence proof)',
+        category='fault_enumeration')
